@@ -669,50 +669,59 @@ fn vary(proto: Proto, base: &Def, other: &Def, how: u8, pos: u8, w: u8) -> Def {
 /// `options_mask` decides per id whether it is an options template (kind is fixed per id
 /// unless `mixed_kinds`).
 pub fn pool(n_ids: std::ops::RangeInclusive<usize>, max_fields: usize, mixed_kinds: bool) -> BoxedStrategy<Pool> {
-    n_ids
-        .prop_flat_map(move |n| {
-            let per_id = move |v9: bool| {
-                (any::<u8>(), 1usize..=3).prop_flat_map(move |(k, alts)| {
-                    let opt = k % 4 == 0;
-                    let alt = move |j: usize| {
+    // no prop_flat_map anywhere in the generators: proptest's pass-through RNG (used by the
+    // structure-aware fuzz target) halves the remaining input at every flat_map
+    let max_n = *n_ids.end();
+    let per_id = move |v9: bool| {
+        let plain = move || if v9 { v9_def(false, max_fields) } else { ipfix_def(false, max_fields) };
+        let opts = move || if v9 { v9_def(true, max_fields) } else { ipfix_def(true, max_fields) };
+        (
+            any::<u8>(),
+            1usize..=3,
+            [plain(), plain(), plain()],
+            [opts(), opts(), opts()],
+            [(any::<u8>(), any::<u8>(), any::<u8>()), (any::<u8>(), any::<u8>(), any::<u8>()), (any::<u8>(), any::<u8>(), any::<u8>())],
+        )
+            .prop_map(move |(k, alts, p, o, derive)| {
+                let opt = k % 4 == 0;
+                let mut defs: Vec<Def> = (0..alts)
+                    .map(|j| {
                         // mixed: the kind of every alternative is drawn independently, so that
                         // options -> options and plain -> plain redefinitions occur as well
                         // as changes of kind
-                        let o = if mixed_kinds { (k >> (2 * j)) & 3 == 0 } else { opt };
-                        if v9 {
-                            v9_def(o, max_fields)
+                        let is_opt = if mixed_kinds { (k >> (2 * j)) & 3 == 0 } else { opt };
+                        if is_opt {
+                            o[j].clone()
                         } else {
-                            ipfix_def(o, max_fields)
+                            p[j].clone()
                         }
-                    };
-                    ((0..alts).map(alt).collect::<Vec<_>>(), vec((any::<u8>(), any::<u8>(), any::<u8>()), alts))
-                        .prop_map(move |(mut defs, derive)| {
-                            // later alternatives are often *variations* of the first one (what a
-                            // re-configured exporter sends): one field's width changed, trailing
-                            // fields dropped, fields appended, two fields swapped - so that
-                            // redefinitions differ from the cached definition in one aspect only
-                            let proto = if v9 { Proto::V9 } else { Proto::Ipfix };
-                            for j in 1..defs.len() {
-                                let (d, pos, w) = derive[j];
-                                if d < 150 && defs[0].kind == defs[j].kind {
-                                    let v = vary(proto, &defs[0], &defs[j], d % 5, pos, w);
-                                    defs[j] = v;
-                                }
-                            }
-                            defs
-                        })
-                })
-            };
-            (
-                proptest::sample::subsequence(
-                    vec![256u16, 257, 258, 259, 300, 1024, 4096, 65535, 511, 260],
-                    n,
-                ),
-                vec(per_id(true), n),
-                vec(per_id(false), n),
-            )
+                    })
+                    .collect();
+                // later alternatives are often *variations* of the first one (what a
+                // re-configured exporter sends): one field's width changed, trailing
+                // fields dropped, fields appended, two fields swapped - so that
+                // redefinitions differ from the cached definition in one aspect only
+                let proto = if v9 { Proto::V9 } else { Proto::Ipfix };
+                for j in 1..defs.len() {
+                    let (d, pos, w) = derive[j];
+                    if d < 150 && defs[0].kind == defs[j].kind {
+                        let v = vary(proto, &defs[0], &defs[j], d % 5, pos, w);
+                        defs[j] = v;
+                    }
+                }
+                defs
+            })
+    };
+    (
+        proptest::sample::subsequence(vec![256u16, 257, 258, 259, 300, 1024, 4096, 65535, 511, 260], n_ids),
+        vec(per_id(true), max_n..=max_n),
+        vec(per_id(false), max_n..=max_n),
+    )
+        .prop_map(|(ids, mut v9, mut ipfix)| {
+            v9.truncate(ids.len());
+            ipfix.truncate(ids.len());
+            Pool { ids, v9, ipfix }
         })
-        .prop_map(|(ids, v9, ipfix)| Pool { ids, v9, ipfix })
         .boxed()
 }
 
@@ -973,8 +982,8 @@ pub fn hostile_def(v9: bool) -> BoxedStrategy<Def> {
         prop_oneof![5 => Just(None), 1 => any::<u32>().prop_map(Some)].boxed()
     };
     let field = (ie, len, ent).prop_map(|(ie, len, ent)| FieldSpec { ie, len, ent });
-    let n = prop_oneof![6 => 0usize..6, 1 => 6usize..40];
-    (n.prop_flat_map(move |n| vec(field.clone(), n)), any::<u8>(), any::<bool>())
+    let fields = prop_oneof![6 => vec(field.clone(), 0..6), 1 => vec(field, 6..40)];
+    (fields, any::<u8>(), any::<bool>())
         .prop_map(|(fields, sc, opt)| {
             let n = fields.len() as u16;
             Def {
@@ -987,24 +996,25 @@ pub fn hostile_def(v9: bool) -> BoxedStrategy<Def> {
 }
 
 pub fn hostile_pool() -> BoxedStrategy<Pool> {
-    (2usize..=4)
-        .prop_flat_map(|n| {
-            let alt = |v9: bool| {
-                vec(
-                    prop_oneof![
-                        2 => hostile_def(v9),
-                        1 => if v9 { v9_def(false, 6) } else { ipfix_def(false, 6) },
-                    ],
-                    1..=2,
-                )
-            };
-            (
-                proptest::sample::subsequence(vec![256u16, 257, 258, 300, 65535, 255, 2, 0, 3, 1], n),
-                vec(alt(true), n),
-                vec(alt(false), n),
-            )
+    let alt = |v9: bool| {
+        vec(
+            prop_oneof![
+                2 => hostile_def(v9),
+                1 => if v9 { v9_def(false, 6) } else { ipfix_def(false, 6) },
+            ],
+            1..=2,
+        )
+    };
+    (
+        proptest::sample::subsequence(vec![256u16, 257, 258, 300, 65535, 255, 2, 0, 3, 1], 2..=4),
+        vec(alt(true), 4..=4),
+        vec(alt(false), 4..=4),
+    )
+        .prop_map(|(ids, mut v9, mut ipfix)| {
+            v9.truncate(ids.len());
+            ipfix.truncate(ids.len());
+            Pool { ids, v9, ipfix }
         })
-        .prop_map(|(ids, v9, ipfix)| Pool { ids, v9, ipfix })
         .boxed()
 }
 
@@ -1166,4 +1176,18 @@ pub fn conformant_case_lossless(cfg: StreamCfg, opts: BuildOpts) -> BoxedStrateg
             }
         })
         .boxed()
+}
+
+// re-exports for the byte-driven plan reader of the fuzz target
+pub fn v9_field_pub(sel: u8, idx: u8, w: u8) -> FieldSpec {
+    v9_field(sel, idx, w)
+}
+pub fn ipfix_field_pub(sel: u8, idx: u8, w: u8, flags: u8) -> FieldSpec {
+    ipfix_field(sel, idx, w, flags)
+}
+pub fn fix_zero_len_pub(fields: &mut Vec<FieldSpec>) {
+    fix_zero_len(fields)
+}
+pub fn vary_pub(proto: Proto, base: &Def, other: &Def, how: u8, pos: u8, w: u8) -> Def {
+    vary(proto, base, other, how, pos, w)
 }
